@@ -30,8 +30,10 @@ import seqcheck
 
 SPEC = {
     "prop": "C14",
-    "lean_targets": ["InfernoVerif.Props.C14"],
-    "prop_files": ["InfernoVerif/Props/C14.lean"],
+    "lean_targets": ["InfernoVerif.Props.C14", "InfernoVerif.Props.C13Glue", "InfernoVerif.Gen.Dispatch"],
+    "translate": ["Infra"],
+    "driver_targets": ["InfernoVerif.Model.Config", "InfernoVerif.Drv.Proto", "InfernoVerif.Gen.Dispatch"],
+    "prop_files": ["InfernoVerif/Props/C14.lean", "InfernoVerif/Props/C13Glue.lean"],
     "lemma_files": ["InfernoVerif/Lemmas/Config.lean", "InfernoVerif/Lemmas/Record.lean"],
     "model_files": ["InfernoVerif/Model/Config.lean", "InfernoVerif/Model/Record.lean",
                     "InfernoVerif/Model/Shaped.lean", "InfernoVerif/Model/Ring.lean",
@@ -696,6 +698,8 @@ def key_of(case, d):
 
 def explore(ctx) -> Exploration:
     ex = Exploration()
+    import transval
+    transval.validate(ctx, SPEC["translate"], ex, per_fn=60)   # generated pointer / size arithmetic vs the Python originals
     rng = ctx.rng
     thorough = ctx.tier == "thorough" or ctx.intensify
     STATS.clear()
